@@ -713,7 +713,12 @@ impl<'a, 'b> B<'a, 'b> {
                         self.number();
                     }
                     self.op(":");
-                    self.body(lab, false);
+                    if self.t.chance(1, 8) {
+                        // an empty arm: `1: ;`
+                        self.tag("empty-case-arm");
+                    } else {
+                        self.body(lab, false);
+                    }
                     self.op(";");
                 }
                 self.depth -= 1;
